@@ -517,6 +517,16 @@ fn main() {
             });
         }
     }
+    // arbitrary byte streams: every token string of <=3 (thorough 4) tokens over the LEX alphabet,
+    // all compositions, small N (clause (i) only: these streams are not made of messages)
+    let lex_ns: Vec<usize> = if thorough { vec![1, 2, 3, 4, 5, 8] } else { vec![1, 2, 4, 8] };
+    let lex_streams: Vec<Vec<u8>> = mc::lex::all_upto(mc::lex::SIGMA, if thorough { 4 } else { 3 });
+    let n_lex = lex_streams.len();
+    for s in lex_streams {
+        for &n in &lex_ns {
+            items.push((Stream::of(vec![PM { text: s.clone(), kind: Kind::Unterminated }]), n));
+        }
+    }
     let items = &items;
     let bfs_items = &bfs_items;
     let cfg = &cfg;
@@ -560,7 +570,8 @@ fn main() {
     out.cov(
         "bounds",
         json!({"pool_messages": pool.iter().map(|m| show(&m.text)).collect::<Vec<_>>(), "plus": "messages of N-1, N, N+1 bytes; pad message of 0..N-2 blanks",
-               "max_messages_per_stream": k, "N": ns, "all_compositions_up_to_bytes": cfg.full_comp, "cuts_beyond": cfg.cuts,
+               "max_messages_per_stream": k, "N": ns,
+               "arbitrary_token_streams": {"count": n_lex, "max_tokens": if thorough { 4 } else { 3 }, "N": lex_ns, "chunkings": "all compositions"}, "all_compositions_up_to_bytes": cfg.full_comp, "cuts_beyond": cfg.cuts,
                "zero_length_reads": "one inserted at every position of every <=2-cut chunking (short streams); first/last (long)",
                "pending_deviation_bound": cfg.pend_bound,
                "stateless": {"stream_N_pairs": t.streams, "chunkings_executed": t.chunkings, "pending_runs": t.pending_runs, "clause_ii_checked": t.ii_checked},
